@@ -46,7 +46,7 @@ def enc_attempt(a):
 
 
 def encode(case):
-    reqs = [[S(r["method"]), B(r["preload"]), c04.enc_arg(r["retries"]), DISP[r["disposal"]], B(r.get("redirect", False))] for r in case["reqs"]]
+    reqs = [[S(r["method"]), B(r["preload"]), c04.enc_arg(r["retries"]), DISP.get(r["disposal"], 9), B(r.get("redirect", False))] for r in case["reqs"]]
     return [case["maxsize"], B(case["block"]), reqs, [enc_attempt(a) for a in case["script"]]]
 
 
@@ -164,6 +164,15 @@ def impl(case):
                 resp = None
                 try:
                     kw = {} if rq.get("release") is None else {"release_conn": rq["release"]}
+                    if rq.get("wait") == "interrupt":
+                        # the caller is interrupted (KeyboardInterrupt) while it waits for a free slot
+                        real_get = pool.pool.get
+
+                        def fake_get(block=True, timeout=None, _q=pool.pool, _real=real_get):
+                            if _q.empty():
+                                raise KeyboardInterrupt()
+                            return _real(block, timeout)
+                        pool.pool.get = fake_get
                     resp = pool.urlopen(rq["method"], "/x", body=body, retries=arg, redirect=rq.get("redirect", False), preload_content=rq["preload"], pool_timeout=0.01, **kw)
                     res = [0, Z(resp.status)]
                 except urllib3.exceptions.MaxRetryError as e:
@@ -179,8 +188,12 @@ def impl(case):
                     res = [1, [S(cname(e)), Opt(inner_of(e), S)]]
                     if not isinstance(e, urllib3.exceptions.HTTPError):
                         problems.append("a raw %s reached the caller (not a urllib3 exception)" % cname(e))
+                if rq.get("wait") == "interrupt":
+                    pool.pool.get = real_get
                 held = resp is not None and getattr(resp, "_connection", None) is not None
-                if held:
+                if held and rq["disposal"] == "hold":
+                    held_all.append(resp)          # the caller keeps the response, unread, for the rest of the history
+                elif held:
                     d = rq["disposal"]
                     try:
                         if d == "read_all":
@@ -214,7 +227,7 @@ def impl(case):
 
 def in_model_domain(case):
     """the model takes release_conn at its default (= preload_content); requests that pass it explicitly are judged by the oracle only"""
-    return all(rq.get("release") is None for rq in case["reqs"])
+    return all(rq.get("release") is None and rq.get("wait") is None and rq["disposal"] != "hold" for rq in case["reqs"])
 
 
 # ---------------------------------------------------------------- oracle
@@ -224,12 +237,15 @@ def oracle(case, obs):
         return problems[0]
     N = case["maxsize"]
     lost = 0            # responses disposed of by close() alone never give their slot back (known finding)
+    holding = 0         # responses the caller keeps unread: each owns a slot and an open socket
     for i, (rq, o) in enumerate(zip(case["reqs"], obs)):
         res, held, (q, opened, nconn) = o
         if res == [9]:
             return None
         if held and rq["disposal"] == "close":
             lost += 1
+        if held and rq["disposal"] == "hold":
+            holding += 1
         conns = [e[0][0] for e in q if e]
         if len(set(conns)) != len(conns):
             return "after request #%d the pool holds a connection twice" % i
@@ -239,8 +255,12 @@ def oracle(case, obs):
             return "block=True but %d sockets are open (maxsize %d)" % (len(opened), N)
         idle = {e[0][1][0] for e in q if e and e[0][1]}
         stray = [s for s in opened if s not in idle]
-        if stray:
+        if stray and len(stray) > holding:
             return "after request #%d (disposal %s) socket(s) %s are open but not idle in the pool" % (i, rq["disposal"], stray)
+        if holding and len(q) != N - lost - holding:
+            return "after request #%d the pool offers %d slots instead of %d (maxsize %d, %d responses still held)" % (i, len(q), N - lost - holding, N, holding)
+        if holding:
+            continue
         if len(q) != N - lost:
             if lost:
                 return "after request #%d the pool offers %d slots instead of %d: a response disposed of by close() alone never returns its slot" % (i, len(q), N)
@@ -344,6 +364,13 @@ def cases(rng, tier):
         for keep in (True, False):
             for body in ("ok", "short", "interrupt"):
                 firsts.append({"connect": "ok", "send": "ok", "recv": ["resp", status, 0 if status == 503 else None, keep, body]})
+    # interrupted while waiting for a free slot: nothing was taken, nothing may be given back
+    holder = {"method": "GET", "preload": False, "retries": ["int", 0], "disposal": "hold", "redirect": False}
+    waiter = {"method": "GET", "preload": True, "retries": ["int", 0], "disposal": "read_all", "redirect": False, "wait": "interrupt"}
+    for maxsize in (1, 2):
+        for pol in (["int", 0], ["none"], ["false"]):
+            out.append({"maxsize": maxsize, "block": True, "reqs": [dict(holder)] * maxsize + [dict(waiter, retries=pol), dict(waiter, retries=pol)],
+                        "script": [ok] * 8})
     # release_conn given explicitly, agreeing or not with preload_content: who gives the connection back, and how often
     probe = {"method": "GET", "preload": True, "retries": ["int", 0], "disposal": "read_all", "redirect": False}
     for f in firsts:
